@@ -237,6 +237,33 @@ def render_struct(s):
     return "\n".join(lines)
 
 
+def field_docs(s, out=None):
+    """(intended flags, doc text as go/ast CommentGroup.Text() yields it) for every top-level field of s and of its embedded declarations
+    that has a doc comment -- used to check that the renderer's spelling means what the generator intended"""
+    out = out if out is not None else []
+    src = render_struct(s).split("\n")
+    doc = []
+    fields = {m["name"]: m for m in s["members"] if m["k"] == "f"}
+    for ln in src:
+        t = ln.strip()
+        if t.startswith("//"):
+            c = t[2:]
+            doc.append(c[1:] if c.startswith(" ") else c)
+            continue
+        if doc and ln.startswith("\t") and " " in t:
+            names = t.split(" ")[0]
+            first = names.split(",")[0]
+            m = fields.get(first)
+            if m is not None:
+                out.append(({"get": bool(m.get("get")), "set": bool(m.get("set")), "new": bool(m.get("new")),
+                             "def": m.get("def")}, "\n".join(doc) + "\n"))
+        doc = []
+    for m in s["members"]:
+        if m["k"] == "e":
+            field_docs(m["decl"], out)
+    return out
+
+
 def render_sub(structs):
     """source of the `sub` package holding the cross-package embedded structs (None when there are none)"""
     subs = []
